@@ -151,7 +151,12 @@ def quiet():
         sys.stdout, sys.stderr = o, e
 
 
+PERSISTENT_LOOP = None     # set by a caller that keeps Repository objects alive across commands (one event loop, as a library user would)
+
+
 def run(coro):
+    if PERSISTENT_LOOP is not None:
+        return PERSISTENT_LOOP.run_until_complete(coro)
     return asyncio.run(coro)
 
 
